@@ -16,9 +16,12 @@ package main
 
 import (
 	"bytes"
+	"compress/gzip"
 	"context"
+	"encoding/base64"
 	"errors"
 	"fmt"
+	"io"
 	"math/rand"
 	"os"
 	"os/exec"
@@ -474,8 +477,18 @@ func classOf(exp, got *obs) string {
 
 func (c *tcase) encode() string { return encodeInput(c) }
 
+// encodeInput: "<kind> <flags> <hex of the script file> [exp:…]"; a large file (long lines) travels
+// gzip-compressed as "<kind>z <flags> <base64url> […]" — the replay input is passed on a command line,
+// where a single argument is limited to 128 KiB.
 func encodeInput(c *tcase) string {
 	s := c.kind + " " + c.fl.String() + " " + corr.Hx(c.file)
+	if len(c.file) > 20000 {
+		var b bytes.Buffer
+		zw := gzip.NewWriter(&b)
+		zw.Write(c.file)
+		zw.Close()
+		s = c.kind + "z " + c.fl.String() + " " + base64.RawURLEncoding.EncodeToString(b.Bytes())
+	}
 	if c.exp != nil {
 		s += " exp:" + strings.ReplaceAll(c.exp.String(c.file), " ", "|")
 	}
@@ -487,7 +500,23 @@ func decodeInput(s string) *tcase {
 	if len(f) < 3 {
 		return nil
 	}
-	c := &tcase{kind: f[0], fl: parseFlags(f[1]), file: corr.Unhx(f[2]), recipe: "replay"}
+	c := &tcase{kind: f[0], fl: parseFlags(f[1]), recipe: "replay"}
+	if strings.HasSuffix(c.kind, "z") {
+		c.kind = strings.TrimSuffix(c.kind, "z")
+		raw, err := base64.RawURLEncoding.DecodeString(f[2])
+		if err != nil {
+			return nil
+		}
+		zr, err := gzip.NewReader(bytes.NewReader(raw))
+		if err != nil {
+			return nil
+		}
+		if c.file, err = io.ReadAll(zr); err != nil {
+			return nil
+		}
+	} else {
+		c.file = corr.Unhx(f[2])
+	}
 	if len(f) >= 4 && strings.HasPrefix(f[3], "exp:") {
 		o, _, ok := parseModel(strings.ReplaceAll(f[3][4:], "|", " "), c.file)
 		if ok {
@@ -542,6 +571,7 @@ func runTsRun(tier string, seed int64, model string, replay string) *corr.Result
 		n01, n16 := 1500, 800
 		if tier == "thorough" {
 			n01, n16 = 100000, 30000
+			longLinePerMille = 8
 		}
 		cases = append(cases, corpusCases()...)
 		for i := 0; i < n01; i++ {
@@ -808,7 +838,7 @@ func lastLines(s string, n int) string {
 func multiCLI(res *corr.Result, r *runner, rng *rand.Rand, cases []*tcase, impl []obs, model string, groups int, fixed []int) {
 	var idx []int
 	for i, c := range cases {
-		if c.fl.cliable() && !c.fl.update && !c.fl.cont && impl[i].verdict != "crash" && impl[i].ioErr == "" {
+		if c.fl.cliable() && !c.fl.update && !c.fl.cont && impl[i].verdict != "crash" && impl[i].ioErr == "" && len(c.file) < 20000 {
 			idx = append(idx, i)
 		}
 	}
